@@ -8,8 +8,8 @@ CONF = {
         "level": "exploration",
         "exhaustive_claim": True,
         "technique": "exhaustive enumeration of the CRC transition function + rapid-generated write partitions against a bit-serial reference",
-        "level_text": "All 16.7M (state, byte) transitions of the streaming checksum are enumerated through the public API against a bit-serial CRC-16/ARC written from the definition, which by induction on the input length covers every byte sequence and every split into writes; generated partitions, Reset and the residue rule are sampled on top. Exhaustive for the transition function, sampled for the API plumbing.",
-        "level_note": "Trusted: the 10-line bit-serial reference in harness/fitmodel/base.go; that Write processes bytes one at a time in order (enumerated per byte, sampled for multi-byte writes).",
+        "level_text": "All 16.7M (state, byte) transitions of the streaming checksum are enumerated through the public API, one byte per Write, against a bit-serial CRC-16/ARC written from the definition; that covers every byte sequence fed byte-wise. Writes of several bytes (where an implementation may take a different code path), partitions, Reset and the residue rule are sampled: random strings with random cuts, and strings that embed their own checksum followed by zero padding at 8-byte aligned and unaligned positions. Exhaustive for the single-byte transition function, sampled for multi-byte writes.",
+        "level_note": "Trusted: the 10-line bit-serial reference in harness/fitmodel/base.go. Not assumed: that a multi-byte Write is the composition of single-byte steps (an independently written change, seeded/C14-c, broke exactly that for a 2^-64 class of inputs; the embedded-sums family was added for it, other coincidences of that kind could still escape).",
         "quick": {"checks": 3000, "timeout": 120},
         "thorough": {"checks": 300000, "timeout": 600},
         "rule": "embedded-sums: 50 per rapid case of data || own CRC little-endian || 0-16 zero bytes || tail, 8-byte aligned or not, written whole or split once. enumerated: every (16-bit register state, input byte) pair, the state reached through the public API "
